@@ -1,0 +1,13 @@
+//go:build verif
+
+package region
+
+// VerifHook is set by the verification harness (build tag "verif") to observe
+// or pause the region client at named points. It is nil in normal use.
+var VerifHook func(point string, c any, arg any)
+
+func vhook(point string, c any, arg any) {
+	if h := VerifHook; h != nil {
+		h(point, c, arg)
+	}
+}
